@@ -815,5 +815,9 @@ func runC33(c *Ctx) error {
 	for _, ch := range append(append([]*mchain{}, chains...), longs...) {
 		defs.WriteString("Definition " + ch.name + " : chain := " + ch.coq + ".\n")
 	}
-	return c.Cases.Write(c.Out, defs.String(), "obs", "obs_eqb")
+	if err := c.Cases.Write(c.Out, defs.String(), "obs", "obs_eqb"); err != nil {
+		return err
+	}
+	// last: chainlib.Init sets the global consensus parameters
+	return realChainStage(c)
 }
